@@ -4,7 +4,7 @@
   `exec_refines_lexical_partial`: for the command fragment
 
       raw text, {print e} (no directives), {css}, {debugger}, {log}, {if}/{elseif}/{else},
-      {let $x: e /}, {let $x}…{/let}, header params        — nested arbitrarily,
+      {switch}/{case}/{default}, {let $x: e /}, {let $x}…{/let}, header params — nested arbitrarily,
       with expressions of the scalar operator fragment of Props/C01.lean,
 
   over scalar data: whenever the lexical specification yields text, the model's walk (dynamic scope
@@ -14,7 +14,7 @@
   whenever the specification yields an error the model yields an error.
 
   Missing for the full `exec_refines_lexical`: {foreach}/{for} (needs list values, outside the scalar
-  fragment), {switch}, {call} (a simulation across the callee's scope), {msg}.  Those are covered by the
+  fragment), {call} (a simulation across the callee's scope), {msg}.  Those are covered by the
   scoping theorems of Props/C02.lean and by the Spec.render oracle of the C02exec correspondence.
 -/
 import SoyVerif.Lemmas.ExecRefine
@@ -37,6 +37,7 @@ def cfrag : Cmd → Bool
   | .debugger _ => true
   | .log _ b => bfrag b
   | .ifc _ conds => condsFrag conds
+  | .switch _ v cases => frag v && casesFrag cases
   | .letValue _ _ e => frag e
   | .letContent _ _ b => bfrag b
   | .headerParam _ _ _ _ _ _ => true
@@ -49,6 +50,9 @@ def csFrag : CmdList → Bool
 def condsFrag : CondList → Bool
   | .nil => true
   | .cons _ c b r => optFrag c && bfrag b && condsFrag r
+def casesFrag : CaseList → Bool
+  | .nil => true
+  | .cons _ vs b r => vs.all frag && bfrag b && casesFrag r
 end
 
 /-- the model's scope (through the heap) and the lexical environment bind the same scalars -/
@@ -152,6 +156,52 @@ theorem block_agree (body : Run) (sbody : Spec.Eval.Env → Out Bytes) (hgood : 
     -- the block's bindings are gone: every lookup through `ctx` reads what it read before
     rw [heq] at hwb
     exact hr.of_lookup (C02.lookup_ext hwb.ext ctx hok)
+
+omit hob in
+/-- the case values of a {switch}: `matchCase` against the specification's `matchAny` -/
+theorem matchCase_sim {ctx : Scope} {env : Spec.Eval.Env} (sv : Value) (hsv : Scalar sv = true) :
+    ∀ (vs : List Expr) (st : St), Rel g ctx st env → vs.all frag = true →
+      (∀ b, Spec.Eval.matchAny env (absV sv) vs = .val b →
+        ∃ st1, matchCase g ctx sv vs st = some (b, st1) ∧ st1.heap = st.heap ∧ st1.out = st.out) ∧
+      (Spec.Eval.matchAny env (absV sv) vs = .error → matchCase g ctx sv vs st = none) := by
+  intro vs
+  induction vs with
+  | nil =>
+    intro st _ _
+    refine ⟨fun b hb => ?_, fun h => ?_⟩
+    · simp only [Spec.Eval.matchAny, Out.val.injEq] at hb
+      exact ⟨st, by simp [matchCase, hb], rfl, rfl⟩
+    · simp [Spec.Eval.matchAny] at h
+  | cons e r ih =>
+    intro st hr hf
+    simp only [List.all_cons, Bool.and_eq_true] at hf
+    obtain ⟨h1, h2⟩ := evalIn_sim hr e hf.1
+    unfold matchCase Spec.Eval.matchAny
+    cases hv : Spec.Eval.eval env e with
+    | unspec => simp [Spec.Eval.Out.bind]
+    | error => simp [Spec.Eval.Out.bind, h2 hv]
+    | val v =>
+      obtain ⟨mv, st1, he, habs, hsc, hheap, hout⟩ := h1 v hv
+      obtain ⟨q1, q2⟩ := equals_refines sv mv hsv hsc
+      rw [habs] at q1 q2
+      simp only [Spec.Eval.Out.bind, he]
+      cases hq : Spec.Eval.equalsV (absV sv) v with
+      | unspec => simp
+      | error => exact absurd hq q2
+      | val b =>
+        rw [q1 b hq]
+        cases b with
+        | true =>
+          simp only [if_true]
+          refine ⟨fun b hb => ?_, fun h => by simp at h⟩
+          simp only [Out.val.injEq] at hb
+          exact ⟨st1, by rw [hb], hheap, hout⟩
+        | false =>
+          simp only [Bool.false_eq_true, if_false]
+          obtain ⟨i1, i2⟩ := ih st1 (hr.of_heap hheap) hf.2
+          refine ⟨fun b hb => ?_, i2⟩
+          obtain ⟨st2, hm, hh, ho⟩ := i1 b hb
+          exact ⟨st2, hm, by rw [hh, hheap], by rw [ho, hout]⟩
 
 /-- the specification's command list with the environment it ends in -/
 def cmdsE : CmdList → Spec.Eval.Env → Spec.Eval.ROut
@@ -355,7 +405,28 @@ theorem cmd_agree : (c : Cmd) → cfrag c = true → ∀ (ctx : Scope) (st : St)
         simp [this]
   | .msg .., hf, _, _, _, _, _, _ => by simp [cfrag] at hf
   | .forc .., hf, _, _, _, _, _, _ => by simp [cfrag] at hf
-  | .switch .., hf, _, _, _, _, _, _ => by simp [cfrag] at hf
+  | .switch _ value cases, hf, ctx, st, env, hr, hown, hok => by
+    simp only [cfrag, Bool.and_eq_true] at hf
+    obtain ⟨h1, h2⟩ := evalIn_sim hr value hf.1
+    rw [execCmd, Spec.Eval.renderCmd]
+    cases hv : Spec.Eval.eval env value with
+    | unspec => simp [Spec.Eval.Out.bind, Agree]
+    | error => simp [Spec.Eval.Out.bind, Agree, h2 hv]
+    | val v =>
+      obtain ⟨mv, st1, he, habs, hsc, hheap, hout⟩ := h1 v hv
+      have hr1 : Rel g ctx st1 env := hr.of_heap hheap
+      have hok1 : ScopeOk ctx st1 := fun f hf' => by rw [hheap]; exact hok f hf'
+      have hown1 : Own ctx st1 := hown.ext (evalIn_ext (fun _ => False) he)
+      have hc := cases_agree cases mv hsc hf.2 ctx st1 env hr1 hown1 hok1
+      rw [habs] at hc
+      simp only [Spec.Eval.Out.bind, he]
+      cases hcv : Spec.Eval.renderCases reg hasBundle esc entry scall cases v env with
+      | unspec => simp [Agree]
+      | error => rw [hcv] at hc; simpa [Agree, AgreeB] using hc
+      | val out =>
+        rw [hcv] at hc
+        simp only [AgreeB] at hc
+        exact ⟨hc.1, by rw [hc.2.1, hout], hc.2.2⟩
   | .call .., hf, _, _, _, _, _, _ => by simp [cfrag] at hf
   | .namespace .., hf, _, _, _, _, _, _ => by simp [cfrag] at hf
   | .template .., hf, _, _, _, _, _, _ => by simp [cfrag] at hf
@@ -407,6 +478,42 @@ theorem cmds_agree : (cs : CmdList) → csFrag cs = true → ∀ (ctx : Scope) (
         rw [hv2] at h2
         simp only [Agree] at h2 ⊢
         exact ⟨h2.1, by rw [h2.2.1, hbytes]; simp, h2.2.2⟩
+theorem cases_agree : (cs : CaseList) → (sv : Value) → Scalar sv = true → casesFrag cs = true →
+    ∀ (ctx : Scope) (st : St) (env : Spec.Eval.Env), Rel g ctx st env → Own ctx st → ScopeOk ctx st →
+    AgreeB g ctx st env (execCases g esc call cs sv ctx st)
+      (Spec.Eval.renderCases reg hasBundle esc entry scall cs (absV sv) env)
+  | .nil, _, _, _, ctx, st, env, hr, _, _ => by
+    rw [execCases, Spec.Eval.renderCases]; exact ⟨rfl, by simp, hr⟩
+  | .cons _ values body rest, sv, hsv, hf, ctx, st, env, hr, hown, hok => by
+    simp only [casesFrag, Bool.and_eq_true] at hf
+    obtain ⟨m1, m2⟩ := matchCase_sim g sv hsv values st hr hf.1.1
+    rw [execCases, Spec.Eval.renderCases]
+    have conv : ∀ {st1 : St} {r : R} {o : Out Bytes}, st1.out = st.out → AgreeB g ctx st1 env r o → AgreeB g ctx st env r o := by
+      intro st1 r o ho h
+      cases o with
+      | unspec => trivial
+      | error => exact h
+      | val out => exact ⟨h.1, by rw [h.2.1, ho], h.2.2⟩
+    cases values with
+    | nil =>
+      simp only [List.isEmpty_nil, if_true, matchCase]
+      exact body_agree body hf.1.2 ctx st env hr hok
+    | cons e es =>
+      simp only [List.isEmpty_cons, Bool.false_eq_true, if_false]
+      cases hm : Spec.Eval.matchAny env (absV sv) (e :: es) with
+      | unspec => simp [Spec.Eval.Out.bind, AgreeB]
+      | error => simp [Spec.Eval.Out.bind, AgreeB, m2 hm]
+      | val b =>
+        obtain ⟨st1, hmc, hh, ho⟩ := m1 b hm
+        have hr1 : Rel g ctx st1 env := hr.of_heap hh
+        have hok1 : ScopeOk ctx st1 := fun f hf' => by rw [hh]; exact hok f hf'
+        have hown1 : Own ctx st1 := hown.ext (Ext.of_heap_eq (W := fun _ => False) hh (matchCase_ext (fun _ => False) _ _ _ _ hmc).foreign)
+        simp only [Spec.Eval.Out.bind, hmc]
+        cases b with
+        | true => simp only [if_true]; exact conv ho (body_agree body hf.1.2 ctx st1 env hr1 hok1)
+        | false =>
+          simp only [Bool.false_eq_true, if_false, List.isEmpty_cons]
+          exact conv ho (cases_agree rest sv hsv hf.2 ctx st1 env hr1 hown1 hok1)
 theorem conds_agree : (cs : CondList) → condsFrag cs = true → ∀ (ctx : Scope) (st : St) (env : Spec.Eval.Env),
     Rel g ctx st env → Own ctx st → ScopeOk ctx st →
     AgreeB g ctx st env (execConds g esc call cs ctx st) (Spec.Eval.renderConds reg hasBundle esc entry scall cs env)
